@@ -903,6 +903,7 @@ class MiniDB:
         self._snap: tuple | None = None
         self.log: list[str] = []  # kinds of state-changing statements executed
         self.assume_rows = False  # DDL is judged as if every table held user rows
+        self.adversarial_order = True  # SQL leaves the order of a SELECT without ORDER BY open: the model returns newest first
 
     # ------------------------------------------------------------------ state
     def snapshot(self) -> tuple:
@@ -1181,6 +1182,8 @@ class MiniDB:
                 rows.sort(key=key, reverse=desc)
             except TypeError:
                 raise SqlUnsupported("ORDER BY over mixed types")
+        if not st["order"] and self.adversarial_order:
+            rows.reverse()
         if st["limit"] is not None:
             n = self._ev(st["limit"], self._scope(st, None, outer), params)
             if n is not None and n >= 0:
